@@ -15,6 +15,7 @@ from mon.core.merge import merge, need
 from mon.core.util import Counter, h64, rng
 from mon.engines import lockstep as L
 from mon.engines import traffic as T
+from mon.engines import monitors as M
 from mon.props import c05
 
 ID = "C06"
@@ -32,6 +33,7 @@ def plan(tier, seed):
         for i in range(3):
             shards.append({"kind": "perms", "tier": tier, "seed": seed, "shard": i, "nfrag": [2, 3, 4][i], "subprocess": True})
         shards.append({"kind": "limit", "tier": tier, "seed": seed, "deliver_limit": False, "subprocess": True})
+        shards.append({"kind": "mtusweep", "tier": tier, "seed": seed, "subprocess": True})
         for i in range(6):
             shards.append({"kind": "faults", "tier": tier, "seed": seed, "shard": i, "n": 3, "subprocess": True})
     else:
@@ -40,6 +42,7 @@ def plan(tier, seed):
         for i, nf in enumerate([2, 3, 4, 5, 5, 5]):
             shards.append({"kind": "perms", "tier": tier, "seed": seed, "shard": i, "nfrag": nf, "subprocess": True})
         shards.append({"kind": "limit", "tier": tier, "seed": seed, "deliver_limit": True, "subprocess": True})
+        shards.append({"kind": "mtusweep", "tier": tier, "seed": seed, "subprocess": True})
         for i in range(24):
             shards.append({"kind": "faults", "tier": tier, "seed": seed, "shard": i, "n": 80, "subprocess": True})
     return shards
@@ -70,7 +73,7 @@ class ShapeMonitor(object):
                     rec = app.sends.get(pid)
                     if rec is None:
                         self.report("C06", "fabricated-on-wire", "APP message on the wire with an id nobody sent: %r" % (pid,))
-                    elif rec["payload"] != payload:
+                    elif M.payload_of(rec) != payload:
                         self.report("C06", "wire-payload-differs", "APP message %r on the wire differs from what was sent (%d vs %d bytes)" % (
                             pid, len(payload), rec["len"]))
             elif typ == 7:
@@ -96,7 +99,7 @@ class ShapeMonitor(object):
                     pid = L.payload_id(whole)
                     rec = app.sends.get(pid) if pid is not None else None
                     self.c.inc("wire_fragment_sets_complete")
-                    if rec is None or rec["payload"] != whole:
+                    if rec is None or M.payload_of(rec) != whole:
                         self.report("C06", "fragments-do-not-concatenate", "the %d fragments of message id %d do not concatenate to a sent payload (%d bytes)" % (
                             count, fid, len(whole)))
                     elif len(whole) <= P.MAX_PAYLOAD_SIZE:
@@ -296,6 +299,42 @@ def run_limit(cfg, out):
     return n
 
 
+def run_mtusweep(cfg, out):
+    """every MTU around the point where the fragment size formula switches (datagram capacity - 6 vs 1024), set one after the
+    other on ONE open connection (setMTU at runtime); after each change fragmented messages of a few sizes go both ways and must
+    be reassembled before the next change"""
+    r = rng("C06", cfg["seed"], "mtusweep")
+    n = 0
+    with T.Run(r, mtu=1500) as run:
+        ShapeMonitor(run)
+        w = run.world
+        w.net.heal(0.004)
+        c = w.connect_client()
+        c.updates_per_step = 2
+        P = run.C.Packet
+        for mtu in list(range(1080, 1111)) + [512, 600, 1500]:
+            P.setMTU(mtu)
+            run.mtu = mtu
+            recs = []
+            for size in (P.MAX_PAYLOAD_SIZE + 1, 2 * P.MAX_FRAGMENT_SIZE + 3, 3 * 1024 + 17, 2 * P.MAX_PAYLOAD_SIZE):
+                for side in ("client", "server"):
+                    recs.append(run.app.send(c if side == "client" else run.sconn(c), side, size, -1, with_cb=True))
+                    n += 1
+                w.step(4)
+            w.run_until(lambda ww: all(rc["cb"] for rc in recs), 400)
+            run.c.inc("mtus_swept")
+            out["distinct"].add(h64("mtusweep", mtu))
+            missing = [rc for rc in recs if not run.app.deliveries.get(rc["id"])]
+            if missing and run.open(c):
+                run.report("C06", "size-never-reassembled", "MTU %d set on an open connection: %d of %d fragmented messages (e.g. %d bytes in %d fragments of at most %d) were not reassembled; %s" % (
+                    mtu, len(missing), len(recs), missing[0]["len"], missing[0].get("nmsgs", 0), P.MAX_FRAGMENT_SIZE, T.where_stuck(run, missing[0])), {"mtu": mtu})
+                break
+        healed = run.settle([c], min_ticks=30, horizon=20.0)
+        T.final_checks(run, [c], healed, horizon=20.0)
+        c05.collect(run, out, PROPS, {"kind": "mtusweep"})
+    return n
+
+
 def shape_extra(run, r, c):
     ShapeMonitor(run)
 
@@ -309,6 +348,8 @@ def run_shard(cfg):
         n = run_perms(cfg, out)
     elif kind == "limit":
         n = run_limit(cfg, out)
+    elif kind == "mtusweep":
+        n = run_mtusweep(cfg, out)
     else:
         n = c05.run_faults(cfg, out, props=PROPS, tag="C06", extra=shape_extra)
     return {"evaluations": n, "distinct": sorted(out["distinct"]), "distinct_count": out.get("distinct_n", 0), "counters": dict(out["counters"]),
@@ -320,7 +361,7 @@ def finish(tier, seed, results):
     inconclusive = []
     need(m["counters"], ["delivered_to_server", "delivered_to_client", "wire_app_messages", "wire_fragments", "wire_fragment_sets_complete",
                          "permutations_delivered", "oversize_sends", "refusals_expected", "crafted_payloads", "reassembly_contexts_expired",
-                         "net_duplicated_c2s", "net_lost_s2c"], inconclusive)
+                         "net_duplicated_c2s", "net_lost_s2c", "mtus_swept"], inconclusive)
     if m["counters"].get("perm_capture_mismatch"):
         inconclusive.append("permutation scenario could not capture the fragments of %d messages" % m["counters"]["perm_capture_mismatch"])
     cov = {
